@@ -21,6 +21,7 @@
 #include <stdlib.h>
 #include <string.h>
 #include <sys/mman.h>
+#include <sys/time.h>
 #include <sys/stat.h>
 #include <sys/wait.h>
 #include <time.h>
@@ -254,8 +255,23 @@ static inline void mc_max(int i, double v) {
 }
 
 // ---- executing one case
+static volatile double mc_case_t0;
+static double mc_case_limit = 120;
+static void mc_watchdog(int sig) {
+    (void)sig;
+    if (mc_w && mc_w->in_case && mc_now() - mc_case_t0 > mc_case_limit) _exit(97);
+}
+static void mc_watchdog_start(void) {
+    struct sigaction sa;
+    memset(&sa, 0, sizeof sa);
+    sa.sa_handler = mc_watchdog;
+    sigaction(SIGALRM, &sa, NULL);
+    struct itimerval it = {{5, 0}, {5, 0}};
+    setitimer(ITIMER_REAL, &it, NULL);
+}
 static void mc_run_case(const McCase *c) {
     McWorker *w = mc_w;
+    mc_case_t0 = mc_now();
     w->cur = *c;
     w->cur_failed = 0;
     w->cur_nontrivial = 0;
@@ -291,6 +307,8 @@ static int mc_ncrash = 0;
 
 typedef void (*McPhaseFn)(void *arg);
 static void mc_phase(const char *name, McPhaseFn fn, void *arg) {
+    const char *only = getenv("VERIF_ONLY");  // debugging aid: run only phases whose name contains this string
+    if (only && *only && !strstr(name, only)) return;
     double t = mc_now();
     McPhase *ph = &mc_phases[mc_nphases++];
     snprintf(ph->name, sizeof ph->name, "%s", name);
@@ -316,6 +334,7 @@ static void mc_phase(const char *name, McPhaseFn fn, void *arg) {
         if (p == 0) {
             mc_wid = i;
             mc_w = &mc_workers[i];
+            mc_watchdog_start();
             fn(arg);
             fflush(stdout);
             _exit(0);
@@ -335,6 +354,8 @@ static void mc_phase(const char *name, McPhaseFn fn, void *arg) {
                 if (WIFSIGNALED(st))
                     snprintf(v->msg, sizeof v->msg, "worker died with signal %d (%s) %s", WTERMSIG(st),
                              strsignal(WTERMSIG(st)), w->in_case ? "inside this case" : "outside any case");
+                else if (WEXITSTATUS(st) == 97)
+                    snprintf(v->msg, sizeof v->msg, "the case did not return within %.0f s (hang / unbounded loop)", mc_case_limit);
                 else
                     snprintf(v->msg, sizeof v->msg, "worker exited with status %d %s", WEXITSTATUS(st),
                              w->in_case ? "inside this case" : "outside any case");
@@ -379,6 +400,8 @@ static int mc_confirm(const McCase *c, char *msg, size_t n) {
         mc_wid = 0;
         int fd = open("/dev/null", 1);
         dup2(fd, 2);
+        mc_case_limit *= 2;
+        mc_watchdog_start();
         mc_run_case(c);
         _exit(0);
     }
@@ -390,6 +413,8 @@ static int mc_confirm(const McCase *c, char *msg, size_t n) {
         r = 1;
         if (WIFSIGNALED(st))
             snprintf(msg, n, "process died with signal %d (%s)", WTERMSIG(st), strsignal(WTERMSIG(st)));
+        else if (WEXITSTATUS(st) == 97)
+            snprintf(msg, n, "the case did not return within %.0f s (hang / unbounded loop)", 2 * mc_case_limit);
         else
             snprintf(msg, n, "process exited with status %d (sanitizer report or abort)", WEXITSTATUS(st));
     } else if (slot->nviol_total) {
